@@ -56,6 +56,8 @@ enum Ev {
 #[derive(Default)]
 struct Log {
     evs: Mutex<Vec<Ev>>,
+    /// every answered poll request (with or without messages): the logical clock for "the consumer is idle"
+    polls: AtomicU64,
 }
 impl Log {
     fn push(&self, e: Ev) {
@@ -66,6 +68,7 @@ impl Log {
 fn tap_for(conn: u32, log: Arc<Log>) -> Tap {
     Tap(Arc::new(move |code: u32, req: &Bytes, resp: Result<&[u8], u32>| match code {
         100 => {
+            log.polls.fetch_add(1, Ordering::SeqCst);
             if let Ok(body) = resp {
                 if body.len() >= 16 && req.len() >= 18 {
                     let part = u32::from_le_bytes(body[0..4].try_into().unwrap());
@@ -251,6 +254,7 @@ struct Member {
 
 const IV_MS: u64 = 10;
 const IDLE_MS: u64 = 350;
+const IDLE_POLLS: u64 = 40;
 
 pub struct Outcome {
     pub class: String,
@@ -565,6 +569,8 @@ async fn history_inner(hseed: u64, r: &mut Rng, set: &Settings, inst: &ServerIns
         let mut poll_in_flight = false;
         for idx in order {
             let mut got = 0usize;
+            let mut polls_at_yield = log.polls.load(Ordering::SeqCst);
+            let mut idle_rounds = 0u32;
             let m = &mut members[idx];
             let (conn, inc) = (m.conn, m.inc);
             let cons = m.consumer.as_mut().unwrap();
@@ -572,8 +578,21 @@ async fn history_inner(hseed: u64, r: &mut Rng, set: &Settings, inst: &ServerIns
                 let nx = tokio::time::timeout(Duration::from_millis(IDLE_MS), cons.next()).await;
                 let Ok(item) = nx else {
                     poll_in_flight = true;
+                    if last_phase {
+                        // the final drain decides completeness: "idle" is judged in polls answered since the last yield, not in wall time
+                        if log.polls.load(Ordering::SeqCst).saturating_sub(polls_at_yield) >= IDLE_POLLS {
+                            break;
+                        }
+                        idle_rounds += 1;
+                        if idle_rounds > 150 {
+                            return Err(Stop::Inconclusive("final drain: consumer answered too few polls to be judged idle".into()));
+                        }
+                        continue;
+                    }
                     break;
                 };
+                polls_at_yield = log.polls.load(Ordering::SeqCst);
+                idle_rounds = 0;
                 match item {
                     Some(Ok(rm)) => {
                         let tag = crate::world::head(&rm.message.payload);
@@ -604,32 +623,28 @@ async fn history_inner(hseed: u64, r: &mut Rng, set: &Settings, inst: &ServerIns
         if last_phase {
             break;
         }
-        // quiescence, then drop and re-create one member with the same identity
-        sleep_ms(IV_MS * 4 + 15).await;
-        let mut stable = commits_seen(&log);
-        for _ in 0..20 {
-            sleep_ms(IV_MS * 2).await;
-            let now = commits_seen(&log);
-            if now == stable {
-                break;
-            }
-            stable = now;
-        }
+        // drop one member's consumer, let its queued commits land, read the stored offsets, re-create it with the same identity
         if r.chance(2, 3) {
+            let same_client = if poll_in_flight { r.chance(1, 8) } else { r.chance(1, 2) };
+            {
+                let m = &mut members[mi];
+                m.consumer = None; // drop
+                if same_client && poll_in_flight {
+                    taint.store(true, Ordering::SeqCst);
+                }
+                if !same_client {
+                    // the application closes the old client (the SDK's detached tasks would keep the connection open otherwise)
+                    let _ = timed("client shutdown", m.raw_tap_client.shutdown()).await?;
+                }
+            }
+            quiesce(&admin, &log).await?;
             let mut stored = BTreeMap::new();
             for p in &my_parts {
                 let o = timed("get_offset", admin.get_consumer_offset(&consumer_id, &one, &one, Some(*p))).await?;
                 stored.insert(*p, o.ok().flatten().map(|x| x.stored_offset));
             }
             let m = &mut members[mi];
-            m.consumer = None; // drop
-            let same_client = if poll_in_flight { r.chance(1, 8) } else { r.chance(1, 2) };
-            if same_client && poll_in_flight {
-                taint.store(true, Ordering::SeqCst);
-            }
             if !same_client {
-                // a fresh connection as well; the application closes the old one (the SDK's detached tasks would keep it open otherwise)
-                let _ = timed("client shutdown", m.raw_tap_client.shutdown()).await?;
                 m.raw_tap_client = sdk_client(inst, m.conn, &log, enc.clone()).await?;
             }
             m.inc += 1;
@@ -641,7 +656,10 @@ async fn history_inner(hseed: u64, r: &mut Rng, set: &Settings, inst: &ServerIns
         }
     }
     // final stored offsets
-    sleep_ms(IV_MS * 4 + 15).await;
+    for m in &mut members {
+        m.consumer = None;
+    }
+    quiesce(&admin, &log).await?;
     let mut final_stored = BTreeMap::new();
     for p in &my_parts {
         let o = timed("get_offset", admin.get_consumer_offset(&consumer_id, &one, &one, Some(*p))).await?;
@@ -658,6 +676,27 @@ async fn history_inner(hseed: u64, r: &mut Rng, set: &Settings, inst: &ServerIns
         "yielded": yields, "fetches": fetches, "commits_on_wire": commits, "recreations": recreations, "final_stored_offsets": format!("{final_stored:?}"),
         "events_excerpt": evs.iter().step_by((evs.len() / 10).max(1)).take(10).map(|e| format!("{e:?}")).collect::<Vec<_>>()});
     Ok(Outcome { class: set.class(), yields, produced: sent.len(), recreations, commits, fetches, sample })
+}
+
+/// Waits until no commit has been seen on any tapped connection for a window scaled to the machine's current round-trip time
+/// (queued commits of a dropped consumer and the last tick of its interval task have landed).
+async fn quiesce(admin: &RawClient, log: &Arc<Log>) -> R<()> {
+    let t = std::time::Instant::now();
+    for _ in 0..3 {
+        let _ = timed("ping", admin.ping()).await?;
+    }
+    let rtt_ms = (t.elapsed().as_millis() as u64 / 3).max(1);
+    let window = (rtt_ms * 30).max(IV_MS * 4 + 20);
+    let mut stable = commits_seen(log);
+    for _ in 0..60 {
+        sleep_ms(window).await;
+        let now = commits_seen(log);
+        if now == stable {
+            return Ok(());
+        }
+        stable = now;
+    }
+    Err(Stop::Inconclusive("commits never quiesced".into()))
 }
 
 fn commits_seen(log: &Arc<Log>) -> usize {
